@@ -21,13 +21,15 @@ pub fn payload_bytes(n: usize, seed: u8) -> Vec<u8> {
         .collect()
 }
 
-pub const IDSETS: [([u8; 4], [u8; 4], [u8; 4]); 5] = [
+pub const IDSETS: [([u8; 4], [u8; 4], [u8; 4]); 6] = [
     (*b"ECU1", *b"APP1", *b"CTX1"),
     ([b'E', 0, 0, 0], [b'A', 0, 0, 0], [0, 0, 0, 0]),
     ([0xFF, 0x01, 0xFF, 0x01], [0x01, 0xFF, 0x7F, 0x80], [b'D', b'T', 0x01, b'S']),
     // ids that start with a NUL byte (the header ECU differs from the storage header's)
     ([0, b'C', b'U', b'2'], [0, b'P', b'P', b'2'], [0, b'T', b'X', b'2']),
     ([0, 0, 0, 0], [0, 0, 0, 0], [0, 0, 0, 1]),
+    // ids made of the first three bytes of the storage marker (no marker: the fourth byte differs)
+    (*b"DLT2", *b"DLTD", *b"xDLT"),
 ];
 
 pub fn shape(framing: &Framing, flags: u8, psize: usize, idset: usize, mcnt: u8, seq: usize) -> MsgSpec {
@@ -274,7 +276,7 @@ impl Prop for C01 {
         let thorough = ctx.tier == Tier::Thorough;
         let framings = [Framing::Storage, Framing::Serial];
         // (a) singles: every shape variant x reduced garbage before/after
-        ctx.begin_family("singles", "32 flag sets x 8 payload sizes x 5 id sets x 2 mcnt x 2 framings x (G_small)^2");
+        ctx.begin_family("singles", "32 flag sets x 8 payload sizes x 6 id sets x 2 mcnt x 2 framings x (G_small)^2");
         let mut done = true;
         'a: for fr in &framings {
             for flags in 0u8..32 {
